@@ -52,6 +52,10 @@ def _exc_info(e):
         return sys.exc_info()
 
 
+class _SubValueError(ValueError):
+    """A subclass of the expected type: MatchesException(ValueError('a')) matches it when the args are equal."""
+
+
 def _ret1():
     return 1
 
@@ -143,7 +147,7 @@ def domains(scratch=None):
                # keys that sort, but only partially (frozensets order by inclusion)
                {frozenset({1}): 0, frozenset({2}): 0}],
         OBJ: [Obj(a=1, b=2), Obj(a=1, b=1), Obj(a=0, b=2)],
-        EXC: [_exc_info(ValueError("a")), _exc_info(KeyError("b")), _exc_info(KeyboardInterrupt())],
+        EXC: [_exc_info(ValueError("a")), _exc_info(KeyError("b")), _exc_info(KeyboardInterrupt()), _exc_info(_SubValueError("a"))],
         CALL: [_ret1, _raise_value, _raise_key, _warn_dep, _warn_two, _warn_twice_same_line, _raise_kbi, _raise_abort],
         LISTLIST: [[], [[]], [[1]], [[1], []], [[1, 2], [1]], [[2]]],
         DICTLIST: [{}, {"x": []}, {"x": [1]}, {"x": [2], "y": []}],
